@@ -807,6 +807,10 @@ func c02R4(c *Ctx, p *Prog) {
 	for _, k := range keys {
 		name := fmt.Sprintf("castle:%s%s", sqName(k.from), sqName(k.to))
 		os := byMove[k]
+		if k.from < 0 || k.to < 0 {
+			c.Undec(rule, "castle#unrecognised", os[0].Pos, "a rook relocation in MakeMove is not guarded by constant From()/To() tests nor taken from a recognised table of castling cases: the castling geometry cannot be read")
+			continue
+		}
 		okGeom := k.from%8 == 4 && (k.from/8 == 0 || k.from/8 == 7) && (k.to == k.from+2 || k.to == k.from-2)
 		var rem, add int64 = -1, -1
 		for _, o := range os {
@@ -843,73 +847,115 @@ func c02R4(c *Ctx, p *Prog) {
 // ---- R5 ----
 
 func c02R5(c *Ctx, p *Prog, rule string) {
-	am := p.Func("uci.(*Driver).applyMoves")
-	pm := p.Func("uci.parseUCIMove")
-	if am == nil {
-		c.Anchor(rule, "uci.(*Driver).applyMoves")
-		return
-	}
-	if pm == nil {
-		c.Anchor(rule, "uci.parseUCIMove")
-		return
-	}
-	mks := callsIn(am, "board.(*Board).MakeMove")
-	for _, mk := range mks {
-		arg := mk.Common().Args[1]
-		ext, ok := arg.(*ssa.Extract)
-		var call *ssa.Call
-		if ok {
-			call, _ = ext.Tuple.(*ssa.Call)
+	// callee gate: a parser whose nil-error returns hand out a move only on the true edge of IsPseudoLegal(that move)
+	gatedParser := func(h *ssa.Function) (bool, int) {
+		if h == nil || h.Blocks == nil || h.Signature.Results().Len() != 2 {
+			return false, 0
 		}
-		if call == nil || objName(calleeObj(call)) != "uci.parseUCIMove" || ext.Index != 0 {
-			c.Fail(rule, "applyMoves#source", mk.Pos(), "the move given to MakeMove is not the result of parseUCIMove")
-			continue
-		}
-		// dominated by err == nil
-		okErr := false
-		for _, ce := range controllingConds(mk.Block()) {
-			if bo, ok := ce.Cond.(*ssa.BinOp); ok {
-				if e2, ok := bo.X.(*ssa.Extract); ok && e2.Tuple == ext.Tuple && e2.Index == 1 {
-					if k, isNil := bo.Y.(*ssa.Const); isNil && k.Value == nil {
-						if (bo.Op == token.NEQ && !ce.True) || (bo.Op == token.EQL && ce.True) {
-							okErr = true
-						}
+		n, ok := 0, true
+		allInstrs(h, func(in ssa.Instruction) {
+			ret, isRet := in.(*ssa.Return)
+			if !isRet || len(ret.Results) != 2 {
+				return
+			}
+			if k, isC := returnedValue(ret, 1).(*ssa.Const); !isC || k.Value != nil {
+				return // error return
+			}
+			n++
+			okGate := false
+			for _, ce := range controllingConds(ret.Block()) {
+				v, pol := ce.Cond, ce.True
+				if u, isNot := v.(*ssa.UnOp); isNot && u.Op == token.NOT {
+					v, pol = u.X, !pol
+				}
+				if call, isCall := v.(*ssa.Call); isCall && pol && objName(calleeObj(call)) == "board.(*Board).IsPseudoLegal" {
+					if sameValue(call.Call.Args[1], returnedValue(ret, 0), 0) {
+						okGate = true
 					}
 				}
 			}
-		}
-		c.Check(okErr, rule, "applyMoves#err-nil", mk.Pos(), "MakeMove runs only when parseUCIMove returned a nil error")
-		// same board: parseUCIMove's board arg == MakeMove receiver == d.board
-		sameB := sameValue(call.Call.Args[0], mk.Common().Args[0], 0) && isFieldLoad(stripConv(call.Call.Args[0]), "Driver.board")
-		c.Check(sameB, rule, "applyMoves#persistent-board", mk.Pos(), "the move is validated against and played on the driver's persistent board (history is kept across the move list)")
-	}
-	c.Floor(rule+".make", len(mks), 1, "MakeMove sites in applyMoves")
-	// parseUCIMove: non-error return dominated by IsPseudoLegal == true
-	n := 0
-	allInstrs(pm, func(in ssa.Instruction) {
-		ret, ok := in.(*ssa.Return)
-		if !ok || len(ret.Results) != 2 {
-			return
-		}
-		if k, isC := ret.Results[1].(*ssa.Const); !isC || k.Value != nil {
-			return // error return
-		}
-		n++
-		okGate := false
-		for _, ce := range controllingConds(ret.Block()) {
-			v, pol := ce.Cond, ce.True
-			if u, ok := v.(*ssa.UnOp); ok && u.Op == token.NOT {
-				v, pol = u.X, !pol
+			if !okGate {
+				ok = false
 			}
-			if call, ok := v.(*ssa.Call); ok && pol && objName(calleeObj(call)) == "board.(*Board).IsPseudoLegal" {
-				if sameValue(call.Call.Args[1], ret.Results[0], 0) {
-					okGate = true
+		})
+		return ok && n > 0, n
+	}
+	isErrCtor := func(v ssa.Value) bool {
+		call, ok := v.(*ssa.Call)
+		if !ok {
+			return false
+		}
+		switch objName(calleeObj(call)) {
+		case "errors.New", "fmt.Errorf":
+			return true
+		}
+		return false
+	}
+	nMk, nGateFn := 0, 0
+	for _, fn := range p.OwnFuncs() {
+		if relPkg(fnPkgPath(fn)) != "uci" {
+			continue
+		}
+		for _, mk := range callsIn(fn, "board.(*Board).MakeMove") {
+			nMk++
+			mkI := mk.(ssa.Instruction)
+			brd, mv := mk.Common().Args[0], mk.Common().Args[1]
+			key := fnName(fn) + "#gate"
+			// persistent board
+			c.Check(isFieldLoad(stripConv(brd), "Driver.board"), rule, "applyMoves#persistent-board", mk.Pos(), "the move is played on the driver's persistent board (history is kept across the move list)")
+			// the parser call the move comes from (if any)
+			var pcall *ssa.Call
+			if ext, ok := stripConv(mv).(*ssa.Extract); ok && ext.Index == 0 {
+				pcall, _ = ext.Tuple.(*ssa.Call)
+			}
+			parserGated := false
+			if pcall != nil {
+				parserGated, _ = gatedParser(pcall.Call.StaticCallee())
+				if parserGated {
+					nGateFn++
 				}
 			}
+			bad := ""
+			complete := enumBlockPaths(fn.Blocks[0], func(from, to *ssa.BasicBlock) bool { return to == mkI.Block() }, 100000, func(bp *bpath) {
+				if bp.End != "arrive" || bp.Arrive != mkI.Block() || bad != "" {
+					return
+				}
+				direct, errNil, infeasible := false, false, false
+				for _, pc := range bp.Conds {
+					if call, ok := pc.V.(*ssa.Call); ok && objName(calleeObj(call)) == "board.(*Board).IsPseudoLegal" {
+						if pc.True && sameValue(call.Call.Args[1], mv, 0) && sameValue(call.Call.Args[0], brd, 0) {
+							direct = true
+						}
+					}
+					if bo, ok := pc.V.(*ssa.BinOp); ok && (bo.Op == token.EQL || bo.Op == token.NEQ) {
+						if k, isNil := bo.Y.(*ssa.Const); isNil && k.Value == nil {
+							x := bp.resolveAt(bo.X, pc.At)
+							isNilBranch := pc.True == (bo.Op == token.EQL)
+							if isErrCtor(x) && isNilBranch {
+								infeasible = true // a freshly made error is not nil
+							}
+							if ext, ok := x.(*ssa.Extract); ok && pcall != nil && ext.Tuple == ssa.Value(pcall) && ext.Index == 1 && isNilBranch {
+								errNil = true
+							}
+						}
+					}
+				}
+				if infeasible || direct || (parserGated && errNil) {
+					return
+				}
+				bad = "a path reaches MakeMove on which neither IsPseudoLegal(board, move) was answered true nor the move came from a gated parser with a nil error"
+			})
+			switch {
+			case !complete:
+				c.Undec(rule, key, mk.Pos(), "path enumeration exceeded its budget")
+			case bad != "":
+				c.Fail(rule, "applyMoves#err-nil", mk.Pos(), "%s: a GUI move that is not pseudo-legal is played on the board", bad)
+			default:
+				c.Ok(rule, "applyMoves#err-nil", mk.Pos(), "every path to MakeMove passes the pseudo-legality gate for that move on that board (directly or inside the parser, with its error tested)")
+			}
 		}
-		c.Check(okGate, rule, "parseUCIMove#gate", ret.Pos(), "parseUCIMove returns a move with nil error only on the true edge of IsPseudoLegal(that move)")
-	})
-	c.Floor(rule+".returns", n, 1, "non-error returns of parseUCIMove")
+	}
+	c.Floor(rule+".make", nMk, 1, "MakeMove sites in package uci")
 }
 
 // ---- R6 ----
@@ -1066,7 +1112,7 @@ func init() {
 			Expect: "C02.R5/applyMoves#err-nil"},
 		Mutant{Name: "C02.R5-gate-removed", Prop: "C02", File: "uci/uci.go",
 			Old: "\tif !b.IsPseudoLegal(m) {\n\t\treturn 0, errors.New(\"uci move not pseudo-legal\")\n\t}\n", New: "",
-			Expect: "C02.R5/parseUCIMove#gate"},
+			Expect: "C02.R5/applyMoves#err-nil"},
 		Mutant{Name: "C02.R5-moves-played-on-copy", Prop: "C02", File: "uci/uci.go",
 			Old: "\tb := d.board\n\tfor _, ms := range moves {", New: "\tcp := *d.board\n\tb := &cp\n\tfor _, ms := range moves {",
 			Expect: "C02.R5/applyMoves#persistent-board"},
@@ -1091,7 +1137,9 @@ func c02R7(c *Ctx, p *Prog, rule string) {
 		return
 	}
 	// the candidate capturers stand on the files next to the pushed pawn: the one-file shifts must not wrap
-	c.Floor(rule+".neighbours", pa5(c, p, rule+".neighbours", inFuncs("board.(*Board).CanEnPassant")), 1, "one-file shifts in CanEnPassant")
+	if n := pa5(c, p, rule+".neighbours", inFuncs("board.(*Board).CanEnPassant")); n == 0 {
+		c.OkTrivial(rule+".neighbours", "none", fn.Pos(), "CanEnPassant contains no one-file bitboard shift (the candidate capturers come from an attack pattern)")
+	}
 	to := fn.Params[1]
 	atts := callsIn(fn, "board.(*Board).IsAttacked")
 	if len(atts) != 1 {
@@ -1228,20 +1276,48 @@ func c02R7(c *Ctx, p *Prog, rule string) {
 	c.Check(hasExcl[2], rule, "CanEnPassant#occupancy#origin-vacated", att.Pos(), "the pushed pawn's ORIGIN square (to - 2*shift) is emptied: CanEnPassant runs before the move is played, so the pawn still stands there and would shield a line the push opens (e.g. 8/8/8/8/3pk3/8/2P5/1B2K3 w: after c2c4 Black is in check from b1 and dxc3 e.p. is illegal)")
 }
 
-func isShiftLoad(v ssa.Value) bool {
-	l, ok := v.(*ssa.UnOp)
-	if !ok || l.Op != token.MUL {
+// isShiftLoad: v is the mover's push direction: +8 for White, -8 for Black, chosen by the side to move —
+// read from a two-element table indexed by STM, or a choice between the two constants under a test of STM.
+func isShiftLoad(v ssa.Value) bool { return isShiftVal(nil, v) }
+
+func isShiftVal(p *Prog, v ssa.Value) bool {
+	v = stripConv(v)
+	if l, ok := v.(*ssa.UnOp); ok && l.Op == token.MUL {
+		ia, ok := l.X.(*ssa.IndexAddr)
+		if !ok {
+			return false
+		}
+		g, ok := ia.X.(*ssa.Global)
+		if !ok || !isFieldLoad(stripConv(ia.Index), "Board.STM") {
+			return false
+		}
+		if g.Name() == "shifts" {
+			return true
+		}
+		if p != nil {
+			if tab, ok := p.globalArrayInts(g); ok && len(tab) == 2 && tab[0] == 8 && tab[1] == -8 {
+				return true
+			}
+		}
 		return false
 	}
-	ia, ok := l.X.(*ssa.IndexAddr)
-	if !ok {
-		return false
+	if ph, ok := v.(*ssa.Phi); ok && len(ph.Edges) == 2 {
+		a, oka := constOf(ph.Edges[0])
+		b, okb := constOf(ph.Edges[1])
+		if !oka || !okb || !((a == 8 && b == -8) || (a == -8 && b == 8)) {
+			return false
+		}
+		// selected by the side to move
+		for i, pred := range ph.Block().Preds {
+			_ = i
+			for _, ce := range append(controllingConds(pred), edgeCond(pred, ph.Block())...) {
+				if bo, ok := ce.Cond.(*ssa.BinOp); ok && (isFieldLoad(stripConv(bo.X), "Board.STM") || isFieldLoad(stripConv(bo.Y), "Board.STM")) {
+					return true
+				}
+			}
+		}
 	}
-	g, ok := ia.X.(*ssa.Global)
-	if !ok || g.Name() != "shifts" {
-		return false
-	}
-	return isFieldLoad(stripConv(ia.Index), "Board.STM")
+	return false
 }
 
 func flattenOr(v ssa.Value, out *[]ssa.Value) {
@@ -1271,7 +1347,27 @@ func c02R8(c *Ctx, p *Prog) {
 		c.Anchor(rule, "uci.(*Driver).handlePosition")
 		return
 	}
-	calls := callsIn(fn, "uci.(*Driver).applyMoves")
+	// the functions of package uci that play moves on the board for good (applyMoves, under whatever name)
+	appliers := map[*ssa.Function]bool{}
+	for _, f := range p.OwnFuncs() {
+		if relPkg(fnPkgPath(f)) == "uci" && len(callsIn(f, "board.(*Board).MakeMove")) > 0 && len(callsIn(f, "board.(*Board).UndoMove")) == 0 {
+			appliers[f] = true
+		}
+	}
+	var calls []ssa.CallInstruction
+	allInstrs(fn, func(in ssa.Instruction) {
+		if ci, ok := in.(ssa.CallInstruction); ok {
+			if callee := ci.Common().StaticCallee(); callee != nil && appliers[callee] {
+				calls = append(calls, ci)
+			}
+		}
+	})
+	if appliers[fn] {
+		// the moves are applied inline
+		for _, mk := range callsIn(fn, "board.(*Board).MakeMove") {
+			calls = append(calls, mk)
+		}
+	}
 	// a board created by this command: StartPos(), the result of FromFEN, or a helper returning only such boards (or nil)
 	var freshBoard func(v ssa.Value, depth int) bool
 	freshBoard = func(v ssa.Value, depth int) bool {
@@ -1334,11 +1430,18 @@ func c02R8(c *Ctx, p *Prog) {
 		c.Check(!stale, rule, fmt.Sprintf("handlePosition#applyMoves@%d", i+1), ci.Pos(), "the move list is applied to a board installed by this very command (StartPos() or the accepted FEN) on every path: the resulting position does not depend on earlier commands")
 	}
 	c.Floor(rule, len(calls), 1, "applyMoves calls in handlePosition")
-	// and applyMoves has no other caller
+	// and nothing else in the driver plays moves for good
 	for _, f := range p.OwnFuncs() {
-		if f != fn && len(callsIn(f, "uci.(*Driver).applyMoves")) > 0 {
-			c.Fail(rule, fnName(f)+"#applyMoves", f.Pos(), "applyMoves is called outside handlePosition")
+		if f == fn || appliers[f] || relPkg(fnPkgPath(f)) != "uci" {
+			continue
 		}
+		allInstrs(f, func(in ssa.Instruction) {
+			if ci, ok := in.(ssa.CallInstruction); ok {
+				if callee := ci.Common().StaticCallee(); callee != nil && appliers[callee] {
+					c.Fail(rule, fnName(f)+"#applyMoves", ci.Pos(), "%s is called outside handlePosition", callee.Name())
+				}
+			}
+		})
 	}
 }
 
